@@ -323,7 +323,8 @@ class UrlSource(Source[Iterable[str]]):
         self._url = url
 
         if url.startswith("http://") or url.startswith("https://"):
-            self._source = HttpSource(url)
+            #without a chunk size an HttpSource returns the whole response as one str rather than the lines of it
+            self._source = HttpSource(url, chunk_size=2**20)
         elif url.startswith("file://"):
             self._source = DiskSource(url[7:])
         elif "://" not in url:
